@@ -229,10 +229,12 @@ class FullLib(Lib):
             old = self.fs_get(it, loc)
             # in-place overwrite from offset 0: the new lines followed by whatever tail of the old
             # content is longer than them (removed by the truncate() that must follow)
-            mid = ctx.fresh("midlines", T.Lines)
             newm = seq.info["m"]
-            ctx.ax.__dict__.setdefault("pointwise", []).append(
-                (mid, lambda i, mid=mid, newm=newm: z3.Select(mid, i) >= z3.Select(newm, i)))
+            g = ctx.fresh("leftover", T.Lines)
+            xm = z3.Const("x!mid", T.S)
+            mid = z3.Lambda([xm], z3.If(z3.Select(g, xm) >= 0,
+                                        z3.Select(newm, xm) + z3.Select(g, xm),
+                                        z3.Select(newm, xm)))
             self.fs_set(it, loc, T.LinesF(mid))
             h.f["pending_truncate"] = seq.info["m"]
             h.f["pos"] = ctx.fresh("pos", T.I)
